@@ -237,6 +237,12 @@ class SimGen:
                     self.ops.append(f"setopt {k} send-buffer int {r.choice([1, 2, 4, 8])}")
             if proto in ("pair1", "rep", "respondent") and r.chance(1, 3):
                 self.ops.append(f"setopt {k} ttl-max int {r.range(1, 6)}")
+        # finite receive / send time-outs on the device's sockets (the forwarders must ignore them: a device never times out)
+        self.tmo = r.chance(1, 3)
+        if self.tmo:
+            for k, (proto, raw) in enumerate(socks):
+                self.ops.append(f"setopt {k} recv-timeout ms {r.choice([20, 50, 200])}")
+                self.ops.append(f"setopt {k} send-timeout ms {r.choice([20, 50, 200])}")
         self.ttl = {}
         for o in self.ops:
             w = o.split()
@@ -258,6 +264,8 @@ class SimGen:
         self.ops.append(t["dev"])
         rounds = r.range(2, 5) if self.quick else r.range(3, 9)
         for _ in range(rounds):
+            if self.tmo and r.chance(1, 2):
+                self.ops.append(f"advance {r.choice([30, 80, 300])}")     # an idle gap longer than the time-outs
             for _ in range(r.range(2, 8)):
                 self.arrive()
             for _ in range(r.range(0, 6)):
